@@ -66,15 +66,18 @@ func ValuesAreEqual(left, right Value) bool {
 
 // StructsAreEqual checks if two structs are equal.
 func StructsAreEqual(left, right Struct) bool {
-	if len(left.Fields) != len(right.Fields) {
-		return false
-	}
-
 	// Fields are unordered so we need to build a map to actually compare
 	// them.
 
 	leftFields := left.fieldMap()
 	rightFields := right.fieldMap()
+
+	// Compare the number of distinct fields rather than len(Fields): a
+	// struct may list a field identifier more than once, in which case the
+	// last one wins.
+	if len(leftFields) != len(rightFields) {
+		return false
+	}
 
 	for i, lvalue := range leftFields {
 		if rvalue, ok := rightFields[i]; !ok {
